@@ -719,8 +719,12 @@ class Mps(MatrixProduct):
             # error is relative error
             k_list = []
             for istage in range(rk_config.stage):
-                k = compressed_sum([y]+[k_list[i].scale(a[istage,i]*tau) for
-                    i in range(istage) if a[istage,i] != 0], batchsize=6)
+                termlist = [y]+[k_list[i].scale(a[istage,i]*tau) for
+                    i in range(istage) if a[istage,i] != 0]
+                if len(termlist) == 1:
+                    # `compressed_sum` compresses a single term in place: not the state being evolved
+                    termlist = [y.copy()]
+                k = compressed_sum(termlist, batchsize=6)
                 k = mpo_t(c[istage]*tau+t0, mps=k).contract(k).scale(-1j)
                 logger.debug(f"k_{istage}: {k}") 
                 k_list.append(k)        
